@@ -444,6 +444,11 @@ def run_hist_dwarf(idx, rng, sh):
         tus = [t['signature'] for t in d0.iter_TUs()]
     except Exception:
         pass
+    # DWARF 5 type units of .debug_info are found through the same signature queries
+    tus += [c['type_signature'] for c in cus if 'type_signature' in c.header]
+    if not die_offs:
+        sh.skip('no unit in .debug_info')
+        return
 
     def rand_op():
         k = rng.choice(['cu_at', 'cu_cont', 'top', 'iter_n', 'iter_n', 'ref', 'ref', 'parent', 'kids', 'kids1', 'sibs', 'attr', 'refaddr',
